@@ -84,4 +84,3 @@ Proof.
   rewrite (IH _ _ E), (iteration_nlike _ _ _ W Er). lia.
 Qed.
 End Run.
-Print Assumptions C10_budget.
